@@ -8,7 +8,8 @@
     that the accepted calls are exactly those of the change of the latest valid
     content (one OnCreated / OnUpdated / OnDeleted, or none) and that no other
     source is touched.  [active_of] is what the accepted calls leave loaded. *)
-From HV Require Import Base.Prelude C18.Model C18.ModelBlob C18.ModelK8s C18.Spec C18.Proofs C18.ProofsBlob C18.ProofsK8s.
+From HV Require Import Base.Prelude C18.Model C18.ModelBlob C18.ModelK8s C18.Spec C18.Proofs C18.ProofsBlob C18.ProofsK8s
+  C18.Accept C18.AcceptProviders C18.AcceptFs C18.AcceptK8s.
 
 (** ** What [trace_ok] means (any provider) *)
 
@@ -317,3 +318,270 @@ Theorem C18_k8s_F8_pinned_refuted :
             active_of (k8s_raw_trace O_all true true 1 h) (Sid 1) = Some 2.
 Proof. exact k8s_F8_refuted. Qed.
 Print Assumptions C18_k8s_F8_pinned_refuted.
+
+(** ** State-dependent acceptance (C18/Accept.v, C18/AcceptProviders.v)
+
+    The theorems above assume a processor whose answer depends on the content alone.
+    The real processor + repository refuse a rule set that is valid in itself while
+    ANOTHER source holds one of its paths, and accept the same bytes later.  Here the
+    processor is [dacc ok0 clash srcs A self c]: content [c] offered by source [self]
+    while the repository holds [A] is accepted iff [ok0 c] (acceptable in itself) and
+    [clash c d = false] for everything [d] a source other than [self] holds now; a
+    deletion is never refused.  [ok0], [clash], [srcs] are arbitrary in every theorem.
+    THE SPECIFICATION [spec_look] / [spec_repo_steps] (evaluated at run time on the REAL
+    repository by the streams httpreal / blobreal): gone => unloaded; invalid => kept;
+    a valid content other than the loaded one is loaded iff the processor accepts it
+    NOW, else the previous version stays; every look decides again. *)
+
+(** the processor has the three properties of the real one *)
+Theorem C18_accept_processor : forall ok0 clash srcs A self c,
+  (dacc ok0 clash srcs A self c = true <->
+   ok0 c = true /\ forall t d, In t srcs -> t <> self -> A t = Some d -> clash c d = false) /\
+  (forall s, deletable (dyn_oracle ok0 clash srcs A self) s = true) /\
+  (forall v, dacc ok0 clash srcs (a_set A self v) self c = dacc ok0 clash srcs A self c).
+Proof.
+  intros. split; [apply dacc_iff|]. split; [intro s; reflexivity | intro v; apply dacc_own_irrelevant].
+Qed.
+Print Assumptions C18_accept_processor.
+
+(** what the specification means: after any looks [ls] the repository holds, for every
+    source, the LATEST content of it that was valid and applicable at one of the looks
+    since the source (re)appeared ([seen_acc]: the looks at [s], each valid content with the
+    processor's answer at the moment of that look; [latest_applicable]: [latest_valid]
+    with such answers) *)
+Theorem C18_accept_latest_applicable : forall ok0 clash srcs s ls,
+  spec_view ok0 clash srcs a_empty ls s = latest_applicable (seen_acc ok0 clash srcs s a_empty ls []).
+Proof. intros. apply spec_latest_applicable. reflexivity. Qed.
+Print Assumptions C18_accept_latest_applicable.
+
+(** retry, as a statement about the calls that achieve the specification: a valid
+    content that is not the loaded one is offered at EVERY look, answered as of now *)
+Theorem C18_accept_retry : forall ok0 clash srcs A s c,
+  A s <> Some c ->
+  offer ok0 clash srcs A s (SNew c)
+    = [mk_call (match A s with None => KCreated | Some _ => KUpdated end) s (Some c) (dacc ok0 clash srcs A s c)] /\
+  apply_calls A (offer ok0 clash srcs A s (SNew c)) s = (if dacc ok0 clash srcs A s c then Some c else A s).
+Proof. exact offer_retry. Qed.
+Print Assumptions C18_accept_retry.
+
+(** convergence: one look suffices once the content is applicable, and it stays while the
+    source keeps showing it, whatever the other sources do *)
+Theorem C18_accept_converges : forall ok0 clash srcs A s c,
+  ok0 c = true ->
+  (forall t d, In t srcs -> t <> s -> A t = Some d -> clash c d = false) ->
+  spec_look ok0 clash srcs A (s, SNew c) s = Some c /\
+  forall ls, (forall so, In so ls -> fst so = s -> snd so = SNew c \/ snd so = SBad \/ snd so = SNone) ->
+             spec_view ok0 clash srcs (spec_look ok0 clash srcs A (s, SNew c)) ls s = Some c.
+Proof.
+  intros ok0 clash srcs A s c H0 Hf.
+  pose proof (spec_converges_one_look ok0 clash srcs A s c H0 Hf) as H. split; [exact H|].
+  intros ls Hls. apply spec_stable_keeps; assumption.
+Qed.
+Print Assumptions C18_accept_converges.
+
+(** what is NOT achieved (by any provider that only retries): two sources whose new
+    contents each compete with the other's OLD content block each other for ever *)
+Theorem C18_accept_no_global_convergence :
+  let srcs := [Sid 0; Sid 1] in
+  let first := [[(Sid 0, SNew 1)]; [(Sid 1, SNew 2)]] in
+  let round := [[(Sid 0, SNew 3)]; [(Sid 1, SNew 4)]] in
+  clash_block 3 4 = false /\ clash_block 4 3 = false /\
+  map (spec_final (fun _ => true) clash_block srcs a_empty (first ++ round ++ round ++ round)) srcs = [Some 1; Some 2].
+Proof. exact spec_mutual_block. Qed.
+Print Assumptions C18_accept_no_global_convergence.
+
+(** HTTP endpoint: for ALL histories of polls and ALL such processors, the calls (with the
+    processor's answers) and the repository after every poll are those of the reference
+    run, and the repository is what the specification demands *)
+Theorem C18_http_accept_all_histories : forall ok0 clash srcs n h,
+  map (fun x => (r_calls x, r_repo x)) (http_real_steps ok0 clash srcs n st_empty a_empty h)
+    = ref_steps ok0 clash srcs a_empty (http_views_r true h) /\
+  map r_repo (http_real_steps ok0 clash srcs n st_empty a_empty h)
+    = spec_repo_steps ok0 clash srcs a_empty (http_views_r true h).
+Proof.
+  intros. split; [apply http_dyn_ref; [apply hagrees_init | apply aeq_refl] | apply http_dyn_repo_is_spec].
+Qed.
+Print Assumptions C18_http_accept_all_histories.
+
+(** retry: after ANY history, a poll showing a valid content that is not the loaded one
+    offers it — however often it was refused before; accepted => loaded and remembered,
+    refused => repository and stored hash unchanged (so the next poll offers it again) *)
+Theorem C18_http_accept_retry : forall ok0 clash srcs h e r c,
+  let k := fst (http_real_state ok0 clash srcs st_empty a_empty h) in
+  let A := snd (http_real_state ok0 clash srcs st_empty a_empty h) in
+  obs_of_outcome_r true (outcome_of r) = SNew c ->
+  A (Sid e) <> Some c ->
+  let x := http_watch (dyn_oracle ok0 clash srcs A (Sid e)) k e r in
+  h_calls x = [mk_call (match A (Sid e) with None => KCreated | Some _ => KUpdated end) (Sid e) (Some c)
+                       (dacc ok0 clash srcs A (Sid e) c)] /\
+  apply_calls A (h_calls x) (Sid e) = (if dacc ok0 clash srcs A (Sid e) c then Some c else A (Sid e)) /\
+  h_st x e = (if dacc ok0 clash srcs A (Sid e) c then Some c else k e).
+Proof. exact http_dyn_retry. Qed.
+Print Assumptions C18_http_accept_retry.
+
+(** convergence: after ANY history, if the endpoint shows a content acceptable in itself
+    and no other source holds a competing content now, the repository holds it after this poll *)
+Theorem C18_http_accept_converges : forall ok0 clash srcs h e r c,
+  let k := fst (http_real_state ok0 clash srcs st_empty a_empty h) in
+  let A := snd (http_real_state ok0 clash srcs st_empty a_empty h) in
+  obs_of_outcome_r true (outcome_of r) = SNew c ->
+  ok0 c = true ->
+  (forall t d, In t srcs -> t <> Sid e -> A t = Some d -> clash c d = false) ->
+  apply_calls A (h_calls (http_watch (dyn_oracle ok0 clash srcs A (Sid e)) k e r)) (Sid e) = Some c.
+Proof. exact http_dyn_converges. Qed.
+Print Assumptions C18_http_accept_converges.
+
+(** cloud blob, buckets with the single key 0 (what the stream blobreal runs), polls in which
+    no blob is listed/named but absent (that is C18-F5 / C18-F6): the same three *)
+Theorem C18_blob_accept_all_histories : forall ok0 clash srcs n h,
+  forallb (fun e => blob1_poll_ok (snd e)) h = true ->
+  map (fun x => (r_calls x, r_repo x)) (blob_real_steps ok0 clash srcs n bst_empty a_empty h)
+    = ref_steps ok0 clash srcs a_empty (blob_views_r true 1 h) /\
+  map r_repo (blob_real_steps ok0 clash srcs n bst_empty a_empty h)
+    = spec_repo_steps ok0 clash srcs a_empty (blob_views_r true 1 h).
+Proof.
+  intros ok0 clash srcs n h Hok.
+  split; [apply blob_dyn_ref; [exact Hok | apply bagrees_init | apply aeq_refl] | apply blob_dyn_repo_is_spec; exact Hok].
+Qed.
+Print Assumptions C18_blob_accept_all_histories.
+
+Theorem C18_blob_accept_retry : forall ok0 clash srcs h b p c,
+  forallb (fun e => blob1_poll_ok (snd e)) h = true -> blob1_poll_ok p = true ->
+  let S := fst (blob_real_state ok0 clash srcs bst_empty a_empty h) in
+  let A := snd (blob_real_state ok0 clash srcs bst_empty a_empty h) in
+  let s := bsid false b 0 in
+  blob1_obs p = Some (SNew c) ->
+  A s <> Some c ->
+  let x := blob_watch (dyn_oracle ok0 clash srcs A s) true 1 b (S b) p in
+  h_calls x = [mk_call (match A s with None => KCreated | Some _ => KUpdated end) s (Some c) (dacc ok0 clash srcs A s c)] /\
+  apply_calls A (h_calls x) s = (if dacc ok0 clash srcs A s c then Some c else A s) /\
+  h_st x 0 = (if dacc ok0 clash srcs A s c then Some c else S b 0).
+Proof. exact blob_dyn_retry. Qed.
+Print Assumptions C18_blob_accept_retry.
+
+Theorem C18_blob_accept_converges : forall ok0 clash srcs h b p c,
+  forallb (fun e => blob1_poll_ok (snd e)) h = true -> blob1_poll_ok p = true ->
+  let S := fst (blob_real_state ok0 clash srcs bst_empty a_empty h) in
+  let A := snd (blob_real_state ok0 clash srcs bst_empty a_empty h) in
+  let s := bsid false b 0 in
+  blob1_obs p = Some (SNew c) ->
+  ok0 c = true ->
+  (forall t d, In t srcs -> t <> s -> A t = Some d -> clash c d = false) ->
+  apply_calls A (h_calls (blob_watch (dyn_oracle ok0 clash srcs A s) true 1 b (S b) p)) s = Some c.
+Proof. exact blob_dyn_converges. Qed.
+Print Assumptions C18_blob_accept_converges.
+
+(** the old theorems are the special case [clash = none]: the run is the run against the
+    content-only oracle (same calls) and the specification is "latest valid content seen" *)
+Theorem C18_accept_static_special_case : forall ok0 srcs n h,
+  (forall A s c, dacc ok0 no_clash srcs A s c = ok0 c) /\
+  map r_calls (http_real_steps ok0 no_clash srcs n st_empty a_empty h) = map h_calls (snd (http_run (static_oracle ok0) h)) /\
+  map r_repo (http_real_steps ok0 no_clash srcs n st_empty a_empty h) = lv_steps ok0 srcs seen_empty (http_views_r true h) /\
+  (forall views, spec_repo_steps ok0 no_clash srcs a_empty views = lv_steps ok0 srcs seen_empty views).
+Proof.
+  intros. split; [intros; apply dacc_no_clash|].
+  destruct (http_static_special_case ok0 srcs n h) as [H1 H2]. split; [exact H1|]. split; [exact H2|].
+  intro views. apply spec_static_is_latest_valid. intro s. reflexivity.
+Qed.
+Print Assumptions C18_accept_static_special_case.
+
+(** the seeded defect (seeded/C18-1, C18-10, C18-11; mutation M1): a provider that records
+    the hash before the processor answered never offers a refused content again *)
+Theorem C18_http_eager_hash_refuted :
+  let ok := fun _ : cid => true in
+  let spec := spec_repo_steps ok pclash srcs2 a_empty (http_views_r true h_eager) in
+  map r_repo (http_real_steps ok pclash srcs2 2 st_empty a_empty h_eager) = spec /\
+  map r_repo (http_real_steps_w ok pclash srcs2 http_watch_eager 2 st_empty a_empty h_eager) <> spec /\
+  last spec [] = [None; Some 5] /\
+  last (map r_repo (http_real_steps_w ok pclash srcs2 http_watch_eager 2 st_empty a_empty h_eager)) [] = [None; None] /\
+  last (map r_known (http_real_steps_w ok pclash srcs2 http_watch_eager 2 st_empty a_empty h_eager)) [] = [None; Some 5] /\
+  flat_map r_calls (skipn 3 (http_real_steps_w ok pclash srcs2 http_watch_eager 2 st_empty a_empty h_eager)) = [].
+Proof. exact http_eager_refuted. Qed.
+Print Assumptions C18_http_eager_hash_refuted.
+
+Theorem C18_blob_eager_hash_refuted :
+  let ok := fun _ : cid => true in
+  let spec := spec_repo_steps ok pclash bsrcs2 a_empty (blob_views_r true 1 hb_eager) in
+  forallb (fun e => blob1_poll_ok (snd e)) hb_eager = true /\
+  map r_repo (blob_real_steps ok pclash bsrcs2 2 bst_empty a_empty hb_eager) = spec /\
+  map r_repo (blob_real_steps_w ok pclash bsrcs2 blob_watch_eager 2 bst_empty a_empty hb_eager) <> spec /\
+  last spec [] = [None; Some 5] /\
+  last (map r_repo (blob_real_steps_w ok pclash bsrcs2 blob_watch_eager 2 bst_empty a_empty hb_eager)) [] = [None; None] /\
+  last (map r_known (blob_real_steps_w ok pclash bsrcs2 blob_watch_eager 2 bst_empty a_empty hb_eager)) [] = [None; Some 5].
+Proof. exact blob_eager_refuted. Qed.
+Print Assumptions C18_blob_eager_hash_refuted.
+
+(** file system (per event; the provider as it is now): for ALL histories of file changes,
+    notifications of any kind in any order and initial loads, and ALL such processors, the
+    calls and the repository of every event are the reference run's on what the event
+    looks at ([fs_view_dyn]: a notification looks at its file; the initial load looks at
+    the existing files in name order, the processor being asked per file as of then, and
+    gives up at the first file whose content is not loaded after the look).
+    [fs_handle_gen] is Model.v's [fs_handle] when the oracle does not depend on the repository. *)
+Theorem C18_fs_accept_all_histories : forall ok0 clash srcs h,
+  fs_dyn_steps ok0 clash srcs world0 st_empty a_empty h = fs_ref_steps ok0 clash srcs a_empty world0 h /\
+  (forall O fixed s A e, fst (fs_handle_gen (fun _ _ => O) fixed (fs_world s) (fs_known s) A e) = fs_handle O fixed s e) /\
+  (forall A v B, aeq A B -> aeq (fst (ref_view ok0 clash srcs A v)) (spec_view ok0 clash srcs B v)).
+Proof.
+  intros. split; [apply fs_dyn_ref; apply hagrees_init|]. split; [intros; apply fs_handle_gen_static|].
+  intros A v B H. apply ref_view_spec. exact H.
+Qed.
+Print Assumptions C18_fs_accept_all_histories.
+
+(** no reload / retry / convergence at a notification, after ANY history *)
+Theorem C18_fs_accept_notify : forall ok0 clash srcs h f ops c,
+  let st := fs_dyn_state ok0 clash srcs world0 st_empty a_empty h in
+  let world := fst (fst st) in let k := snd (fst st) in let A := snd st in
+  ops <> [] -> world f = CValid c ->
+  let x := fs_handle_gen (dyn_oracle ok0 clash srcs) true world k A (FsNotify f ops) in
+  (A (Sid f) = Some c -> h_calls (fst x) = []) /\
+  (A (Sid f) <> Some c ->
+     h_calls (fst x) = [mk_call (match A (Sid f) with None => KCreated | Some _ => KUpdated end) (Sid f) (Some c)
+                                (dacc ok0 clash srcs A (Sid f) c)] /\
+     snd x (Sid f) = (if dacc ok0 clash srcs A (Sid f) c then Some c else A (Sid f)) /\
+     h_st (fst x) f = (if dacc ok0 clash srcs A (Sid f) c then Some c else k f)) /\
+  (ok0 c = true -> (forall t d, In t srcs -> t <> Sid f -> A t = Some d -> clash c d = false) -> snd x (Sid f) = Some c).
+Proof. exact fs_dyn_notify. Qed.
+Print Assumptions C18_fs_accept_notify.
+
+Theorem C18_fs_eager_hash_refuted :
+  let ok := fun _ : cid => true in
+  last (map snd (fs_dyn_steps ok pclash srcs2 world0 st_empty a_empty hf_eager)) [] = [None; Some 5] /\
+  last (map snd (fs_ref_steps ok pclash srcs2 a_empty world0 hf_eager)) [] = [None; Some 5] /\
+  last (map snd (fs_eager_steps ok pclash srcs2 world0 st_empty a_empty hf_eager)) [] = [None; None] /\
+  flat_map fst (skipn 6 (fs_eager_steps ok pclash srcs2 world0 st_empty a_empty hf_eager)) = [].
+Proof. exact fs_eager_refuted. Qed.
+Print Assumptions C18_fs_eager_hash_refuted.
+
+(** Kubernetes: NO retry.  The provider's calls do not depend on the processor's answers
+    (it keeps no record of what was applied); a version refused because another source
+    held its path is offered again neither when that source goes away nor at a relist
+    (same generation), only when the object's spec changes.  The witness: the polling
+    specification demands B's rule set loaded, the provider's repository stays without it;
+    the next generation is offered and loaded.  (No general theorem for this provider
+    against a state-dependent processor.) *)
+Theorem C18_k8s_calls_independent_of_answers : forall O1 O2 f7 f8 s a,
+  fst (k8s_atom O1 f7 f8 s a) = fst (k8s_atom O2 f7 f8 s a) /\
+  option_map (map shape) (snd (k8s_atom O1 f7 f8 s a)) = option_map (map shape) (snd (k8s_atom O2 f7 f8 s a)).
+Proof. exact k8s_atom_shape. Qed.
+Print Assumptions C18_k8s_calls_independent_of_answers.
+
+Theorem C18_k8s_accept_no_retry_witness :
+  let ok := fun _ : cid => true in
+  k8s_wf 2 hk_no_retry = true /\
+  map (fun x => map (fun p => (p_kind p, p_cid p, p_ok p)) (fst x)) (k8s_dyn_steps ok pclash ksrcs2 2 ks_empty a_empty hk_no_retry)
+    = [[(KCreated, Some 1, true)]; [(KCreated, Some 5, false)]; [(KDeleted, None, true)]; []; []] /\
+  last (map snd (k8s_dyn_steps ok pclash ksrcs2 2 ks_empty a_empty hk_no_retry)) [] = [None; None] /\
+  last (spec_repo_steps ok pclash ksrcs2 a_empty hk_views) [] = [None; Some 5].
+Proof. exact k8s_no_retry. Qed.
+Print Assumptions C18_k8s_accept_no_retry_witness.
+
+Theorem C18_k8s_accept_next_generation_loads :
+  let ok := fun _ : cid => true in
+  let h := hk_no_retry ++ [KWatch WModified kB2] in
+  k8s_wf 2 h = true /\
+  last (map (fun x => map (fun p => (p_kind p, p_cid p, p_ok p)) (fst x)) (k8s_dyn_steps ok pclash ksrcs2 2 ks_empty a_empty h)) []
+    = [(KUpdated, Some 9, true)] /\
+  last (map snd (k8s_dyn_steps ok pclash ksrcs2 2 ks_empty a_empty h)) [] = [None; Some 9].
+Proof. exact k8s_next_generation_loads. Qed.
+Print Assumptions C18_k8s_accept_next_generation_loads.
